@@ -454,9 +454,16 @@ func (x *Exec) byContract(st *State, fr *Frame, n ast.Node, pc *ProcContract, os
 	if csig != nil {
 		res = csig.Results()
 	}
+	override := x.resultOverride
+	x.resultOverride = nil
 	for i := 0; i < res.Len(); i++ {
 		rt := res.At(i).Type()
-		r := x.d.fresh("r_"+strings.ReplaceAll(short, " ", ""), x.sortOf(rt))
+		var r Term
+		if i < len(override) && override[i].Sort == x.sortOf(rt) {
+			r = override[i]
+		} else {
+			r = x.d.fresh("r_"+strings.ReplaceAll(short, " ", ""), x.sortOf(rt))
+		}
 		r.Ty = rt
 		results = append(results, r)
 		x.assumeTypeInv(post, r)
@@ -742,7 +749,7 @@ func (x *Exec) resolveIfaceFor(n *types.Named, name string) *types.Named {
 		seen[t] = true
 		if in := namedOf(t); in != nil {
 			if it, ok := in.Underlying().(*types.Interface); ok {
-				if matches(in) {
+				if matches(in) && (types.Implements(n, it) || types.Implements(types.NewPointer(n), it)) {
 					found = in
 					return
 				}
@@ -861,6 +868,12 @@ func (x *Exec) ifaceCall(st *State, fr *Frame, ce *ast.CallExpr, in *types.Named
 	}
 	osig := f.Origin().Type().(*types.Signature)
 	csig, _ := x.info.TypeOf(ce.Fun).(*types.Signature)
+	if pc.Pure {
+		if ms, ok := x.methodUF(in, f.Name()); ok && len(args) == len(ms.args) {
+			r := tApp(ms.ret, ms.fname, append([]Term{recv}, args...)...)
+			x.resultOverride = []Term{r}
+		}
+	}
 	x.byContract(st, fr, ce, pc, osig, csig, recv, args, sub, owner.Obj().Pkg().Path(), k)
 }
 
@@ -1375,6 +1388,13 @@ func (x *Exec) fold(st *State, r Term, t types.Type, n ast.Node) {
 	self := r
 	self.Ty = t
 	env := &CEnv{names: map[string]Term{}, st: st, old: st, self: self, tsub: sub}
+	env.impl = &implCtx{self: self, ic: ii.ic}
+	if _, s, _ := structBehind(t); s == nil {
+		// a boxed non-struct value (function or string kind): self denotes the value itself
+		env.self = x.loadCell(st, r, t)
+	}
+	x.assumeMethodModels(st, self, ii, env)
+	env.impl = nil
 	for i, c := range ii.ic.ObjInv {
 		tt, err := x.cevalSafe(env, c, "Bool")
 		if err != nil {
@@ -1384,6 +1404,12 @@ func (x *Exec) fold(st *State, r Term, t types.Type, n ast.Node) {
 		x.oblige(st, "objinv", fmt.Sprintf("fold:%s:%d", ii.ic.Type, i), tt, n, c.Src)
 	}
 	for _, name := range sortedKeys(ii.ic.Models) {
+		if _, isMeth := ii.ic.MParams[name]; isMeth {
+			continue
+		}
+		if _, isState := x.stateOfIfaces(ii, name); !isState {
+			continue
+		}
 		mc := ii.ic.Models[name]
 		val, err := x.cevalSafe(env, mc, "")
 		if err != nil {
